@@ -42,6 +42,10 @@ func (c *compiler) compile() (string, error) {
 		var res interface{}
 		var err error
 
+		// no block statement is being evaluated yet: an error of this
+		// statement is reported on its own line
+		c.curStmt = nil
+
 		switch node := stmt.(type) {
 		case *ast.ReturnStatement:
 			res, err = c.evalReturnStatement(node)
@@ -1051,8 +1055,22 @@ func (c *compiler) evalBlockStatement(node *ast.BlockStatement) (interface{}, er
 }
 
 func (c *compiler) evalStatement(node ast.Statement) (interface{}, error) {
+	// curStmt is the innermost statement being evaluated, the one an error
+	// is attributed to. When this statement is done without error the
+	// enclosing one is current again; on error it stays, so that the line
+	// of the failing statement is reported.
+	outer := c.curStmt
 	c.curStmt = node
 
+	res, err := c.evalCurrentStatement(node)
+	if err == nil {
+		c.curStmt = outer
+	}
+
+	return res, err
+}
+
+func (c *compiler) evalCurrentStatement(node ast.Statement) (interface{}, error) {
 	switch t := node.(type) {
 	case *ast.ExpressionStatement:
 		s, err := c.evalExpression(t.Expression)
